@@ -23,6 +23,19 @@ import xml.etree.ElementTree as ET
 from concurrent.futures import ThreadPoolExecutor
 from .. import core
 
+
+def _sh(cmd, **kw):
+    """core.sh, repeated when the process cannot be started (fork / pipe failure on an overloaded machine)"""
+    import time
+    for attempt in range(4):
+        try:
+            return core.sh(cmd, **kw)
+        except OSError:
+            if attempt == 3:
+                raise
+            time.sleep(2 + 3 * attempt)
+
+
 ID = "C17"
 LEVEL = "other"
 RULE = ("one case = one generated project (3-6 C files in up to 3 directories, equal base names in different directories, shared "
@@ -450,7 +463,7 @@ def base_args(ctx, opts, inline=True, emit=False, supp=True):
 
 
 def run_cpp(args, cwd):
-    rc, so, se = core.sh(args, cwd=cwd, timeout=120)
+    rc, so, se = _sh(args, cwd=cwd, timeout=120)
     return rc, parse_xml(se), se
 
 
@@ -570,7 +583,7 @@ def observe_alone(ctx, d, proj, f):
     """three runs of one file alone: raw reports, dump, the real alone result"""
     opts = proj["opts"]
     rc1, raw, se1 = run_cpp(base_args(ctx, opts, inline=False, emit=True, supp=False) + [f], d)
-    rc2, _, se2 = core.sh([ctx.cppcheck, "-q", "--dump", "--inline-suppr"] + (["--library=" + opts["library"]] if opts.get("library") else []) + [f],
+    rc2, _, se2 = _sh([ctx.cppcheck, "-q", "--dump", "--inline-suppr"] + (["--library=" + opts["library"]] if opts.get("library") else []) + [f],
                           cwd=d, timeout=120)
     if f.endswith(".qml"):
         # markup file: checkInternal returns before anything is read into the logger (no suppressions, no dump)
